@@ -428,6 +428,10 @@ def r3(ctx):
         elif len(sts) == 2 and len(forms) == 2 and all(x[2] == pre["values"] for x in forms) and lower and \
                 {forms[0][0], forms[0][1]} == {pre["row_indices"], pre["col_indices"]} and forms[0] == forms[1]:
             pass        # the same triangle twice: falls through to the report below
+        elif sts and not any("row_indices" in U(inline(n.targets[0].slice, env)) and "col_indices" in U(inline(n.targets[0].slice, env)) for n in sts):
+            ctx.bad("R3", f"{f.site()}::zeros-and-both-triangles", f"the dense matrix is filled by {[U(n)[:70] for n in sts]}: the stored values are placed without their stored "
+                    f"(row, col) pairs - by position in some assumed order - so a matrix whose entries were added (or merged) in another order densifies with distances at the wrong pairs")
+            lp = None
         elif sts:
             raise AnalysisError(f"{f.site()}: the dense matrix is filled without a loop by {[U(n)[:60] for n in sts]}; not a form this rule reads")
     if lp is not None:
